@@ -93,13 +93,17 @@ def gen(rng, tier):
 def coq_eval(cases):
     """evaluate the Coq tables (Gen/*.v through Spec/AbiTables.v) on the same inputs, inside coqc"""
     byfn = {}
+    bysfn = {}
+    wrappers = {fn: (inner, px) for fn, ty, inner, px in _tab.get("string_fns", [])}
     for c in cases:
         t = c.split(" ")
         if t[0] == "tostr":
             byfn.setdefault(t[1], []).append(int(t[3]) * (-1 if t[2] == "m" else 1))
+        elif t[0] == "tostring" and t[1] in wrappers and t[2] == "p":
+            bysfn.setdefault(t[1], []).append(int(t[3]))
     d = os.path.join(vlib.BUILD, "c19")
     os.makedirs(d, exist_ok=True)
-    v = ["Require Import V.Ref.RefLayout V.Spec.AbiTables V.Proofs.AbiTablesP V.Gen.AbiConsts V.Gen.ToStr V.Gen.CStructs.",
+    v = ["Require Import V.Model.ErrFmt V.Ref.RefLayout V.Spec.AbiTables V.Proofs.AbiTablesP V.Gen.AbiConsts V.Gen.ToStr V.Gen.CStructs.",
          "From Coq Require Import List String ZArith.", "Import ListNotations.", "Open Scope string_scope.", "Open Scope Z_scope.",
          "Set Printing Width 1000000.", "Set Printing Depth 10000000.",
          "Definition arms_of f := match lookup f to_str_fns with Some (_, a) => a | None => [] end.",
@@ -111,6 +115,13 @@ def coq_eval(cases):
         for k in range(0, len(byfn[fn]), CH):
             v.append('Goal True. idtac "===FN %s %d". Abort.' % (fn, k))
             v.append('Eval vm_compute in (let r := resolve abi_consts (arms_of "%s") in map (sem_r r) [%s]).' % (fn, "; ".join("(%d)" % x for x in byfn[fn][k:k + CH])))
+    # the *_to_string wrappers: sem_r on the resolved arms (= to_str_sem, lemma sem_r_resolve), else prefix(0x<hex>)
+    v.append('Definition ts (r : list (option Z * string)) (px : string) (x : Z) : string := match sem_r r x with Some s => s | None => (px ++ "(" ++ hex0xl (Z.to_N x) ++ ")")%string end.')
+    for fn in sorted(bysfn):
+        inner, px = wrappers[fn]
+        for k in range(0, len(bysfn[fn]), CH):
+            v.append('Goal True. idtac "===SFN %s %d". Abort.' % (fn, k))
+            v.append('Eval vm_compute in (let r := resolve abi_consts (arms_of "%s") in map (ts r "%s") [%s]).' % (inner, px, "; ".join("(%d)" % x for x in bysfn[fn][k:k + CH])))
     v.append('Goal True. idtac "===GEN". Abort.')
     v.append("Eval vm_compute in (map (fun p => (fst p, lay (snd p))) c_structs).")
     v.append('Goal True. idtac "===REF". Abort.')
@@ -120,12 +131,20 @@ def coq_eval(cases):
     rc, out = vlib.sh(["coqc", "-Q", vlib.COQ, "V", "-o", os.path.join(d, "cases.vo"), vf], 900)
     if rc != 0:
         raise vlib.Broken("evaluation of the generated Coq tables (cases.v)", out[-2000:])
-    res = {"tostr": {}, "gen": {}, "ref": {}}
+    res = {"tostr": {}, "tostring": {}, "gen": {}, "ref": {}}
     out = out.replace("%nat", "").replace("%Z", "")
-    parts = re.split(r"===(FN \S+ \d+|GEN|REF)\n", out)
+    parts = re.split(r"===(S?FN \S+ \d+|GEN|REF)\n", out)
     for k in range(1, len(parts), 2):
         tag, body = parts[k], parts[k + 1]
-        if tag.startswith("FN "):
+        if tag.startswith("SFN "):
+            fn, k0 = tag[4:].split(" ")
+            items = re.findall(r'"([^"]*)"', body)
+            vals = bysfn[fn][int(k0):int(k0) + CH]
+            if len(items) != len(vals):
+                raise vlib.Broken("cases.v output for %s: %d results for %d inputs" % (fn, len(items), len(vals)))
+            for x, it in zip(vals, items):
+                res["tostring"][(fn, x)] = it
+        elif tag.startswith("FN "):
             fn, k0 = tag[3:].split(" ")
             items = re.findall(r'Some "([^"]*)"|(None)', body)
             vals = byfn[fn][int(k0):int(k0) + CH]
@@ -168,6 +187,8 @@ def run_both(cases, prop, per_shard_timeout=120):
         elif t[0] == "tostr":
             x = int(t[3]) * (-1 if t[2] == "m" else 1)
             model.append(coq.get("tostr", {}).get((t[1], x), "untranslated"))
+        elif t[0] == "tostring" and t[2] == "p" and (t[1], int(t[3])) in coq.get("tostring", {}):
+            model.append("x" + coq["tostring"][(t[1], int(t[3]))].encode().hex())
         else:
             model.append("-")
     return impl, model
@@ -222,6 +243,9 @@ def oracle(case, impl, model):
             want = ("R" if x & 4 else " ") + ("W" if x & 2 else " ") + ("E" if x & 1 else " ")
             return None if text == want else "p_flags_to_string(%d) = %r, the gABI flag bits read %r" % (x, text, want)
         return None if ("%x" % x) in text.lower() or str(x) in text else "p_flags_to_string(%d) = %r does not contain the number" % (x, text)
+    if t[0] == "tostring" and model not in ("-", impl) and impl.startswith("x"):
+        _tie.append("%s(%d): the translated wrapper gives %r, rustc says %r" % (t[1], x, bytes.fromhex(model[1:]).decode("utf-8", "replace"),
+                                                                                    bytes.fromhex(impl[1:]).decode("utf-8", "replace")))
     if t[0] == "tostring":
         base = _coq["tostr_impl"].get("tostr %s %s %s" % (t[1].replace("_to_string", "_to_str"), t[2], t[3]))
         if base is None or impl in ("range", "unknown"):
